@@ -33,7 +33,10 @@ PROP = {
         "1 -> kFail, every other RCODE is a server failure which completes the lookup with kAllDnsFail only once EVERY configured server has sent one (a duplicate from one server does not stand in for another server); "
         "the source address of a datagram is otherwise not part of the rule (all generated datagrams come from configured servers)",
         "(b) the timeout is the documented 5 checks 1 s apart: asserted window = later than 4 s after request() and in the first loop pass at or after 5 s; the virtual clock advances in steps of at most 1 s, each followed by idle passes",
-        "(b) request ids are not reused within a history (at most 24 lookups); cancel() of the lookup whose callback is running, setDnsIPAddresses() with lookups outstanding and destroying the DnsRequest inside a callback are not generated",
+        "(b) request ids are not reused within a history (at most 32 lookups); setDnsIPAddresses() with lookups outstanding and destroying the DnsRequest inside a callback are not generated; "
+        "a completion callback may cancel() the lookup it is being invoked for (harmless on the unmodified tree; the result of that first cancel() is not asserted) and may start further lookups before and after doing so",
+        "(b) when the query cannot be sent to any configured server (255.255.255.255 on the non-broadcast socket, a 70 KB name) request() may return an id (the unmodified tree does: the lookup then times out or is completed by a datagram "
+        "carrying its id) or 0; 0 means no lookup was started: no callback ever, isRunning(the id it would have had) false, nothing outstanding; with an empty server list request() returns 0",
         "(b) a datagram longer than UdpSocket's 4096-byte receive buffer reaches DnsRequest as its first 4096 bytes (plain recvfrom()); if those end inside a question or record the reply is cut off = malformed and must be ignored "
         "(the lookup stays outstanding and the next acceptable reply completes it); a complete reply followed by padding may be taken (with its own data) or dropped",
         "(b) loopback UDP keeps the order of datagrams sent to one socket; the harness waits (SO_MEMINFO on the client's socket) until each datagram has arrived before it runs the loop",
@@ -52,7 +55,7 @@ META = {
                   "libFuzzer mutations of a 267-file seed corpus produced by that generator are handed to DnsRequest::onUdpRecv (probe subclass) of a fresh DnsRequest with one outstanding lookup: "
                   "it returns (no crash, no stack exhaustion, no sanitizer report, < 1 s CPU), calls back at most once and only for a datagram that carries the lookup's id with QR set, "
                   "the status agrees with the RCODE, every reported address/ttl and cname/ttl is located in that datagram by the reference reader, and RFC-conformant plain replies are "
-                  "reported exactly. (b) Histories of up to 24 lookups against 1-3 loopback servers (requests, also from inside callbacks; cancels, also from inside callbacks, of "
+                  "reported exactly. (b) Histories of up to 32 lookups against 1-3 loopback servers, optionally with an unsendable 255.255.255.255 entry, only such entries, or no server at all (requests, also of a 70 KB name, also from inside callbacks in scripted chains up to three deep; completion callbacks on the reply and the timeout path that cancel their own id, other ids, and start 0-2 new lookups before/after; cancels of "
                   "outstanding / completed / never issued ids; replies valid / NXDOMAIN / SERVFAIL / FORMERR / REFUSED / NOTIMP / QR clear / unknown id / over-long (4090-9000 bytes, DNS content running past the 4096-byte receive buffer) from any server in any order; "
                   "duplicated datagrams; datagrams sent while no lookup is outstanding; clock advances around the 4-5 s window): every callback runs exactly once, during the delivery of "
                   "the first acceptable datagram with that datagram's data, or as kTimeout inside the window, never after cancel; no other datagram causes a callback; cancel() and "
@@ -60,5 +63,5 @@ META = {
     "level_note": "Trusted: the harness's RFC 1035 reference reader and wire builder (dnsref.h), ASan/UBSan, -ftrivial-auto-var-init=pattern, Linux loopback UDP ordering, the virtual clock hook. "
                   "Six genuine defects were found and are fixed by harness/C15/proposed-fixes/01..06 (regression inputs in corpus/C15/regress; the check reports them again if they return). "
                   "Not asserted: what a malformed reply does to the lookup beyond containment; the text of the query; replies from addresses that are not configured servers; "
-                  "id reuse after 65535 lookups; re-entrant cancel of the running callback's own lookup.",
+                  "id reuse after 65535 lookups; the return value of a callback's cancel() of its own lookup.",
 }
